@@ -139,6 +139,36 @@ def load (p : Pkg) : Doc :=
     master := p.master.map (rewriteRef (afterStylesAuto p).1.fix)
     fix := (afterStylesAuto p).1.fix }
 
+/-! ### several documents in one process, embedded objects -/
+
+/-- `load` of the XML parts of one (sub)document with the index and the rename table as they are in `st`;
+    returns the document and the state it leaves behind -/
+def loadFrom (st : LState) (p : Pkg) : Doc × LState :=
+  let a := indexDefs st p.cAuto
+  let c := indexDefs a.1 p.common
+  let s := indexDefs c.1 p.sAuto
+  ({ common := c.2
+     auto := a.2 ++ s.2
+     body := p.body.map (rewriteRef a.1.fix)
+     master := p.master.map (rewriteRef s.1.fix)
+     fix := s.1.fix }, s.1)
+
+/-- a session: the (sub)documents whose XML parts a process reads, in that order — the top-level document of a
+    package, then each `Object <n>/` of its manifest (`load()`: `subdoc = OpenDocument(...)`, `__loadxmlparts(z,
+    manifest, subdoc, folder)`), then the next package, including a package whose `load()` raises after its parts were
+    read (a listed member is missing).  Every one of them is a new `OpenDocument`, and `OpenDocument.__init__` runs
+    `clear_caches()`: `_styles_dict` and `_styles_ooo_fix` are attributes of the instance and start empty, whatever
+    the documents before it left behind. -/
+def loadSession : List Pkg → List Doc
+  | [] => []
+  | p :: ps => (loadFrom ⟨[], []⟩ p).1 :: loadSession ps
+
+/-- NOT the code: the variant in which the rename table belongs to the process (one table for all documents; the
+    index still starts empty).  `Props.C11.finding_shared_rename_table` shows that the property fails for it. -/
+def loadSessionSharedFix : List (Str × Str) → List Pkg → List Doc
+  | _, [] => []
+  | f, p :: ps => (loadFrom ⟨[], f⟩ p).1 :: loadSessionSharedFix (loadFrom ⟨[], f⟩ p).2.fix ps
+
 /-! ### save: C10's selection on the flattened containers -/
 
 def clsAttr : Nat := 1001
